@@ -269,4 +269,25 @@ example : getRegion [1, -3, 5/2] [7, 7, 7] = some ⟨-3, 5/2, 7, 7⟩ := by deci
 example : maxabs [[1, -5, 2], [3]] = some 5 := by decide +kernel
 example : checkRegion [2, 1, 0, 1] = .error .valueError := by decide +kernel
 
+/-! ### The regenerated source satisfies the property -/
+/-- The translated `inside` is exactly the closed-box predicate; the translated `pad_region` moves each bound outwards and is undone by the
+    opposite pad; the translated `check_region` accepts exactly W ≤ E and S ≤ N. -/
+theorem src_inside_iff (r : Region) (e n : Rat) :
+    Gen.insidePt r.w r.e r.s r.n e n = true ↔ (r.w ≤ e ∧ e ≤ r.e ∧ r.s ≤ n ∧ n ≤ r.n) := by
+  rw [gen_inside_eq_model]; exact inside_iff r e n
+
+theorem src_pad_unpad (r : Region) (pn pe : Rat) :
+    let p := Gen.padRegion r.w r.e r.s r.n pn pe
+    Gen.padRegion p.1 p.2.1 p.2.2.1 p.2.2.2 (-pn) (-pe) = (r.w, r.e, r.s, r.n) := by
+  simp only [Gen.padRegion]
+  refine Prod.ext ?_ (Prod.ext ?_ (Prod.ext ?_ ?_)) <;> simp
+
+theorem src_check_region_accepts_iff (w e s n : Rat) : Gen.checkRegion4 w e s n = .ok () ↔ (w ≤ e ∧ s ≤ n) := by
+  unfold Gen.checkRegion4
+  by_cases h1 : w > e
+  · simp [h1]
+  · by_cases h2 : s > n
+    · simp [h1, h2]
+    · simp [h1, h2]; exact ⟨not_lt.mp h1, not_lt.mp h2⟩
+
 end Verde.C13
